@@ -40,19 +40,13 @@ class TimelineProcess(Process):
                     # merge events
                     timeline[event_index][1].update(new_event[1])
                     break
-                elif event_index == len(timeline) - 1:
-                    # append as last event
-                    timeline.append(new_event)
-                    break
                 elif new_time < time:
-                    # next
-                    continue
-                elif new_time > time:
-                    next_time = timeline[event_index + 1][0]
-                    if new_time < next_time:
-                        # add event into middle of timeline
-                        timeline = timeline[:event_index + 1] + [new_event] + timeline[event_index + 2:]
-                        break
+                    # add event before the first later event
+                    timeline.insert(event_index, new_event)
+                    break
+            else:
+                # append as last event
+                timeline.append(new_event)
 
         self.timeline = timeline
 
@@ -82,17 +76,16 @@ class TimelineProcess(Process):
     def next_update(self, timestep, states):
         time = states['global']['time']
         update = {'global': {'time': timestep}}
-        for (t, change_dict) in self.timeline:
-            if time >= t:
-                for path_to_variable, value in change_dict.items():
-                    # make embedded dict with keys listed in path_to_variable
-                    update_at_path = {}
-                    update_value = {
-                        '_value': value,
-                        '_updater': 'set'}
-                    nested_set(update_at_path, path_to_variable, update_value)
-                    update = deep_merge_combine_lists(update, update_at_path)
+        while self.timeline and time >= self.timeline[0][0]:
+            _, change_dict = self.timeline.pop(0)
+            for path_to_variable, value in change_dict.items():
+                # make embedded dict with keys listed in path_to_variable
+                update_at_path = {}
+                update_value = {
+                    '_value': value,
+                    '_updater': 'set'}
+                nested_set(update_at_path, path_to_variable, update_value)
+                update = deep_merge_combine_lists(update, update_at_path)
 
-                self.timeline.pop(0)
-                log.info('timeline update: {}'.format(update))
+            log.info('timeline update: {}'.format(update))
         return update
